@@ -8,9 +8,12 @@ pub mod c13;
 pub mod c14;
 pub mod c16;
 pub mod c17;
+pub mod c18;
+pub mod c19;
+pub mod c20;
 
 use crate::runner::PropDef;
 
 pub fn all() -> Vec<PropDef> {
-    vec![c02::prop(), c07::prop(), c08::prop(), c11::prop(), c13::prop(), c14::prop(), c16::prop(), c17::prop()]
+    vec![c02::prop(), c07::prop(), c08::prop(), c11::prop(), c13::prop(), c14::prop(), c16::prop(), c17::prop(), c18::prop(), c19::prop(), c20::prop()]
 }
